@@ -74,10 +74,10 @@ def parse_goal_output(text):
             if last:
                 goals[last]["exact"] = False
             continue
-        if " = " in line and not line.startswith(("Assuming", "P(", "Elapsed", " ", "∂")) and "| n=" not in line.split(" = ")[0]:
+        if " = " in line and not line.startswith(("Assuming", "P(", "Elapsed", " ")) and "| n=" not in line.split(" = ")[0]:
             lhs, rhs = line.split(" = ", 1)
             lhs = lhs.strip()
-            if not re.match(r"^([Eck]\d*\(.*\)|[A-Za-z_][A-Za-z0-9_*+\- ]*)$", lhs):
+            if not re.match(r"^(∂?[Eck]\d*\(.*\)|∂?[A-Za-z_][A-Za-z0-9_*+\- ]*)$", lhs):
                 continue
             pieces = [p.strip() for p in rhs.split("; ")]
             try:
